@@ -7,3 +7,5 @@ import Norad.Props.C09
 #print axioms C09.save_frame_counterexample_contents_value
 #print axioms C09.guard_separates
 #print axioms C09.api_built_fonts_safe
+#print axioms C09.save_frame
+#print axioms C09.save_tree_depends_only_on_font
